@@ -79,6 +79,24 @@ Theorem C18_access_roundtrip :
 Proof. exact C18_access_roundtrip_lemma. Qed.
 Print Assumptions C18_access_roundtrip.
 
+(* One request whose QUERY_STRING / body are REPLACED between reads (request[key] = value,
+   the documented way that clears dependent caches).  [run_ops st ops] = the results of the
+   reads in [ops]; [state_after st pre] = the (query string, body) the request carries after
+   the replacements in [pre].  Every read decodes what the request carries at that moment. *)
+Theorem C18_reads_follow_updates :
+  forall (st : rstate) (pre post : list op) (a : accessor),
+    run_ops st (pre ++ ORead a :: post)
+    = run_ops st pre
+      ++ read_one (fst (state_after st pre)) (snd (state_after st pre)) a
+      :: run_ops (state_after st pre) post
+    /\ (forall ps1 ps2,
+          (forall k v, In (k, v) (ps1 ++ ps2) -> k <> [] /\ Forall scalar k /\ Forall scalar v) ->
+          state_after st pre = (urlencode ps1, urlencode ps2) ->
+          nth_error (run_ops st (pre ++ ORead a :: post)) (length (run_ops st pre))
+          = Some (QDone (expected_read ps1 ps2 a))).
+Proof. exact C18_reads_follow_updates_lemma. Qed.
+Print Assumptions C18_reads_follow_updates.
+
 (* END TO END through the body pipeline (composition with C04, C05, C13; models
    model/Stream.v, Body.v, Chunked.v, BodyLimits.v are imported, not restated).
      forms_through s buf maxb cl chunked = Request.forms on a request whose wsgi.input is the
@@ -266,3 +284,15 @@ Example C18_framing_nonvacuous :
      | _ => False
      end.
 Proof. vm_compute. repeat split. Qed.
+
+(* query read, query string replaced, query and params read again; then the body replaced *)
+Example C18_updates_nonvacuous :
+  run_ops ([97; 61; 49]%N, [120; 61; 49]%N)
+          [ORead AQuery; OSetQs [98; 61; 50]%N; ORead AQuery; ORead AParams;
+           OSetBody [121; 61; 50; 38; 98; 61; 51]%N; ORead AForms; ORead AParams]
+  = [ QDone [([97]%N, VStr [49]%N)];
+      QDone [([98]%N, VStr [50]%N)];
+      QDone [([98]%N, VStr [50]%N); ([120]%N, VStr [49]%N)];
+      QDone [([121]%N, VStr [50]%N); ([98]%N, VStr [51]%N)];
+      QDone [([98]%N, VStr [51]%N); ([121]%N, VStr [50]%N)] ].
+Proof. vm_compute. reflexivity. Qed.
